@@ -270,10 +270,11 @@ func performSeek(ctx context.Context, ps Store, memRes []KeyValueExists, rng See
 				var isMem = haveMem && cmpFunc(kvMem.Key, kvPs.Key) < 0
 				if isMem {
 					if kvMem.Exists {
+						k := kvMem.Key
 						if cutPrefix {
-							kvMem.Key = kvMem.Key[lPrefix:]
+							k = k[lPrefix:]
 						}
-						if !cont(kvMem.Key, kvMem.Value) {
+						if !cont(k, kvMem.Value) {
 							done = true
 							return false
 						}
